@@ -110,7 +110,7 @@ class ObsScheduler(L.Scheduler):
 
     async def enqueue_task(self, name, *a, **kw):
         tid = await L.Scheduler.enqueue_task(self, name, *a, **kw)
-        self._world.on_enqueued(name, tid)
+        self._world.on_enqueued(name, tid, kw.get("script", a[0] if a else None))
         cb = self._world.on_enqueued_cb
         if cb is not None:
             cb(name, tid, kw.get("script", a[0] if a else None), kw.get("deps", a[3] if len(a) > 3 else []))
@@ -255,7 +255,9 @@ class TaskFacts:
 class PoolWorld:
     """One simulated worker pool.  `props` selects which oracles raise."""
 
-    def __init__(self, trace, cores, props, clock=None, memfs=True, working_dir="/simproj", hash_salt=0):
+    def __init__(self, trace, cores, props, clock=None, memfs=True, working_dir="/simproj", hash_salt=0,
+                 dup_names=False):
+        self.dup_names = dup_names  # the same target name live twice (a target submitted again by a later run)
         self.trace = trace
         self.cores = cores
         self.props = set(props)
@@ -533,13 +535,13 @@ class PoolWorld:
         c = self.conn(cid)
         if not c.usable:
             return None
-        name, script = f"T{k}", f"script-{k}"
+        name, script = (f"T{k // 2}" if self.dup_names and k < 100 else f"T{k}"), f"script-{k}"
         deps_k = [d for d in deps_k if d in self.tasks_by_k and self.tasks_by_k[d].tid is not None]
         f = TaskFacts(k, name, script, deps_k, limit, plan, cid)
         f.dep_tids = [self.tasks_by_k[d].tid for d in f.deps_k]
         self.tasks_by_k[k] = f
         self.tasks_by_script[script] = f
-        self.tasks_by_name[name] = f
+        self.tasks_by_name.setdefault(name, []).append(f)
         if self.memfs is not None and plan.get("log_fail"):
             which, at = plan["log_fail"]
             self.memfs.faults[f"{name}.{which}"] = at
@@ -550,8 +552,10 @@ class PoolWorld:
             c.abort()
         return f
 
-    def on_enqueued(self, name, tid):
-        f = self.tasks_by_name.get(name)
+    def on_enqueued(self, name, tid, script=None):
+        f = self.tasks_by_script.get(script) if isinstance(script, str) else None
+        if f is not None and f.tid is not None:
+            f = None
         self.trace.log("enqueued", name=name, tid=tid)
         if tid in self.tasks_by_tid or tid in self.issued_tids:
             self.flag("C14", "id_reused", f"tid {tid} issued twice (second time for {name})")
@@ -792,7 +796,8 @@ class PoolWorld:
             if name == "COMPLETED" and not (f.procs and f.procs[-1].returncode == 0):
                 self.flag("C13", "completed_without_success", f"task {f.k}")
             # logs of a task that ran to its end
-            if self.memfs is not None and name in ("COMPLETED", "FAILED") and f.procs and not f.plan.get("log_fail") \
+            if self.memfs is not None and not self.dup_names and name in ("COMPLETED", "FAILED") and f.procs \
+                    and not f.plan.get("log_fail") \
                     and why == "natural" and f.procs[-1].phase == "CLOSED" and not f.procs[-1].sigkill:
                 p = f.procs[-1]
                 base = f"{self.working_dir}/.gwf/logs/{f.name}"
